@@ -169,6 +169,11 @@ func (e *Env) eval(x *SExpr) Val {
 			return vc.unop(e.st, token.SUB, a, token.Position{})
 		case "^":
 			return vc.unop(e.st, token.XOR, a, token.Position{})
+		case "*":
+			if a.K == KPtr && a.L != nil {
+				return vc.load(e.st, a.L)
+			}
+			return e.fail("cannot dereference %s", a.String())
 		}
 	case "bin":
 		switch x.Name {
@@ -434,6 +439,10 @@ func (e *Env) index(a, i Val) Val {
 	}
 	idx := toIdx(i)
 	switch a.K {
+	case KGhost:
+		if f, ok := flatten(i); ok && len(f) == 1 {
+			return boolVal(sel(a.S, f[0]))
+		}
 	case KSlice:
 		et := a.T.Underlying().(*types.Slice).Elem()
 		return e.vc.load(e.st, &Loc{Kind: locElem, Ref: a.Sl[0], Idx: bvAdd(a.Sl[1], idx), Base: et})
@@ -655,6 +664,18 @@ func (e *Env) call(x *SExpr) Val {
 			return e.fail("within of non-slices")
 		}
 		return boolVal(and(eq(a.Sl[0], b.Sl[0]), sx("bvsle", b.Sl[1], a.Sl[1]), sx("bvsle", i64(0), a.Sl[2]), sx("bvsle", bvAdd(a.Sl[1], a.Sl[2]), bvAdd(b.Sl[1], b.Sl[2]))))
+	case "has":
+		// has(m, k): key k is present in map m
+		m, k := argv(0), argv(1)
+		mt, ok := m.T.Underlying().(*types.Map)
+		if m.K != KRef || !ok {
+			return e.fail("has: not a map")
+		}
+		if k.K == KConst {
+			k = vc.convert(e.st, k, mt.Key(), token.Position{})
+		}
+		_, found := vc.mapLookup(e.st, m, k, mt)
+		return boolVal(found)
 	case "allnonnil":
 		m := argv(0)
 		mt, ok := m.T.Underlying().(*types.Map)
